@@ -306,6 +306,37 @@ def build(prog: dict) -> dict:
             res["problems"].append({"clause": f"{which}_graph_ill_formed",
                                     "what": f"{type(ex).__name__}: {ex}"[:300]})
             return res
+    # HISTORY: the call sites of the caller's graph were tagged InlineCallTag BY HAND before
+    # (the calls inside function bodies were not): tag_all_calls_to_be_inlined must still
+    # reach every other call, and inlining must leave no call behind
+    gd_dict = None
+    try:
+        from pytato.tags import InlineCallTag
+
+        class PreTagger(pt.transform.CopyMapper):
+            def map_call(self, expr: Any) -> Any:
+                return super().map_call(expr).tagged(InlineCallTag())
+
+            def clone_for_callee(self, function: Any) -> Any:
+                return pt.transform.CopyMapper(_function_cache=self._function_cache)
+        pre = PreTagger()(pt.transform.deduplicate(gb_dict))
+        gd_dict = inline_calls(tag_all_calls_to_be_inlined(pre))
+    except Exception as ex:      # noqa: BLE001
+        res["problems"].append({"clause": "inline_after_pretagging_raised",
+                                "what": f"{type(ex).__name__}: {ex}"[:300], "detail": "other"})
+    if gd_dict is not None:
+        try:
+            gdx = export.export_graph(gd_dict)[0]
+            if count_kinds(gdx, "ncr") or gdx["funcs"]:
+                res["problems"].append({
+                    "clause": "calls_left_after_inlining_pretagged",
+                    "what": f"{count_kinds(gdx, 'ncr')} call results remain when the caller's "
+                            f"call sites had been tagged by hand beforehand"})
+        except export.Unsupported:
+            pass
+        except Exception as ex:      # noqa: BLE001
+            res["problems"].append({"clause": "pretagged_graph_ill_formed",
+                                    "what": f"{type(ex).__name__}: {ex}"[:300]})
     try:
         ga, ia = export.export_graph(ga_dict)
         gb, ib = export.export_graph(gb_dict)
